@@ -37,7 +37,8 @@ DIRECTIO = ['absent', 0, 1, '1', "'1'", 'absent', 1, 0, '0', "'0'", 1]
 def required(tier):
     b = {f'residue:{k}': 1 for k in range(32)}
     b.update({'residue:0': 4, 'directio:on': 40, 'directio:off': 40, 'template:on': 20, 'template:off': 40, 'override-attempt': 30,
-              'multi-file': 40, 'permutations>=2': 20, 'many-blocks-unpadded': 20, 're-recorded-same-stem': 50, 'reducer-header-skip': 30, 'user-key-begins-with-END': 20, 'sibling-stems-in-directory': 50, 'directio:string-zero': 20, 'empty-string-value': 10, 'blimpy-consulted': 50, 'aligned+directio': 3, 're-recorded-through-from_data:longer-than-input': 60})
+              'multi-file': 40, 'permutations>=2': 20, 'many-blocks-unpadded': 20, 're-recorded-same-stem': 50, 'reducer-header-skip': 30, 'user-key-begins-with-END': 20, 'sibling-stems-in-directory': 50, 'directio:string-zero': 20, 'empty-string-value': 10, 'blimpy-consulted': 50, 'aligned+directio': 3, 're-recorded-through-from_data:longer-than-input': 60,
+              're-recorded-through-from_data:user-card-clashes-with-inherited': 40})
     return {'buckets': b, 'counters': {'blocks_parsed': 500, 'reader_comparisons': 500, 'listing_orders_realised': 40},
             'checks': 3000, 'nontrivial': 100}
 
@@ -352,16 +353,26 @@ def _run(stg, raw_utils, c, cfg, tmp, R):
         _, src2 = work_raw.build(stg, dict(cfg, tones=[], seed=cfg['seed'] + 5))
         nin = len(all_blocks)
         stem_out = os.path.join(tmp, 'again_out')
+        # the caller's own cards for the NEW file: one of them re-uses a key the input already carries, with another value --
+        # what the caller supplies now wins over what is inherited from the input
+        hd_new = {'NEWNOTE': 'second generation'}
+        clash = [k for k, w in c['user'].items() if k not in OWNED and k not in ('PKTIDX', 'PKTSTART', 'PKTSTOP', 'DIRECTIO', 'EMPTYSTR', 'SRC_NAME')
+                 and k in h0]
+        if clash:
+            kq = sorted(clash)[0]
+            wq = c['user'][kq]
+            hd_new[kq] = (wq + 1) if isinstance(wq, int) else ((wq * 2 + 1.5) if isinstance(wq, float) else 'changed')
+            R.bucket('re-recorded-through-from_data:user-card-clashes-with-inherited')
         try:
             with common.quiet():
                 rvb2 = v.RawVoltageBackend.from_data(stem, src2, digitizer=v.RealQuantizer(),
                                                      filterbank=v.PolyphaseFilterbank(num_taps=cfg['M'], num_branches=cfg['P']),
                                                      start_chan=cfg['start_chan'], num_subblocks=1)
                 if c['_idx'] % 8 == 2:
-                    rvb2.record(stem_out, num_blocks=nin + 3, length_mode='num_blocks', header_dict={}, digitize=False, load_template=False,
+                    rvb2.record(stem_out, num_blocks=nin + 3, length_mode='num_blocks', header_dict=dict(hd_new), digitize=False, load_template=False,
                                 verbose=False)
                 else:
-                    rvb2.record(stem_out, obs_length=(nin + 2.5) * rvb2.time_per_block, length_mode='obs_length', header_dict={},
+                    rvb2.record(stem_out, obs_length=(nin + 2.5) * rvb2.time_per_block, length_mode='obs_length', header_dict=dict(hd_new),
                                 digitize=False, load_template=False, verbose=False)
             out_files = sorted(glob.glob(stem_out + '.????.raw'))
             ob = [b for f in out_files for b in guppi.parse_file(f)]
@@ -378,6 +389,10 @@ def _run(stg, raw_utils, c, cfg, tmp, R):
                         got=g, want=w, asked_blocks=nin + 3, block=bi)
                 for k in ('BLOCSIZE', 'OBSNCHAN', 'NBITS', 'TBIN'):
                     R.check(k in h and _num_eq(h[k], guppi.parse_value(h0[k])), 're-recorded-through-from_data:owned-field-wrong:' + k, block=bi)
+                if bi in (0, len(ob) - 1):
+                    for k, w in hd_new.items():
+                        R.check(k in h and _val_equal(w, h[k]), 're-recorded-through-from_data:user-card-lost-or-overridden-by-inherited', card=k,
+                                want=w, got=h.get(k), block=bi)
                 if 'PKTSTOP' in h and 'PKTSTART' in h:
                     def num_(x):            # cards inherited from the input come back as quoted strings (not judged here)
                         x = guppi.parse_value(x)
